@@ -259,6 +259,12 @@ def do_replay(path):
         return 3
     p = subprocess.run([drv, "replay"], input=inputs_of(line) + "\n", stdout=subprocess.PIPE, stderr=subprocess.STDOUT, text=True)
     impl = p.stdout.strip()
+    if p.returncode not in (0, 3) and ("panic:" in impl or "fatal error:" in impl):
+        print("input          :", json.dumps(describe(line + " ?")))
+        print("implementation : CRASH\n" + impl[-1200:])
+        print("rule / model   : every C19 function returns a value (prefix_match_iff, wildcard_match_iff: no panic)")
+        print("verdict        : VIOLATION reproduced")
+        return 1
     tmp = os.path.join(common.build_dir("c19", "tmp"), "replay.txt")
     with open(tmp, "w") as f:
         f.write(impl + "\n")
@@ -366,6 +372,7 @@ def _main(tier):
             broken.setdefault("all", []).append("generated model does not extract/compile: " + glog[-400:])
     phase("build harness and runners")
     ref_mism, gen_mism, summary = [], [], {}
+    crashed = False
     lines_ref = lines_gen = 0
     sweepdir = common.build_dir("c19", "sweep")
     if drv is None:
@@ -394,6 +401,19 @@ def _main(tier):
         if rc != 0:
             if rc == 3:
                 broken.setdefault("all", []).append("harness cannot drive the implementation: " + out.strip()[-400:])
+            elif "panic:" in out or "fatal error:" in out:
+                # the code under test crashes the harness process (e.g. a MustCompile that panics at
+                # package initialisation): reproduce on a single trivial input
+                probe = "V 0 e 61"
+                pr = subprocess.run([drv, "replay"], input=probe + "\n", stdout=subprocess.PIPE, stderr=subprocess.STDOUT, text=True)
+                msg = (pr.stdout if pr.returncode not in (0, 3) else out).strip()
+                m = re.search(r"(panic:[^\n]*|fatal error:[^\n]*)", msg)
+                v.finding("C19:crash:" + (m.group(1) if m else "panic")[:120],
+                          {"property": PID, "input": probe, "decoded": describe(probe + " ?"),
+                           "implementation_output": msg[-1500:],
+                           "replay": "./check C19 --replay <this file>"},
+                          "the wamp package panics when its C19 functions are run (%s)" % (m.group(1) if m else "panic"), tag="crash")
+                crashed = True
             else:
                 raise RuntimeError("c19drive sweep failed:\n" + out[-3000:])
         else:
@@ -418,7 +438,7 @@ def _main(tier):
             phase("sweep of the implementation")
             with ThreadPoolExecutor(max_workers=len(files)) as ex:
                 rres = list(ex.map(lambda p: run_runner(ref, p, ["-domain"]), files))
-                gres = list(ex.map(lambda p: run_runner(g, p), files)) if g else []
+                gres = list(ex.map(lambda p: run_runner(g, p, ["-skipG"]), files)) if g else []
             for mism, _, summ, bad in rres:
                 if bad:
                     raise RuntimeError("c19ref: " + "; ".join(bad[:3]))
@@ -428,7 +448,7 @@ def _main(tier):
                 if bad:
                     raise RuntimeError("c19gen: " + "; ".join(bad[:3]))
                 gen_mism += mism
-                lines_gen += int(summ["lines"])
+                lines_gen += int(summ["lines"]) - int(summ["skipped"])
 
     phase("model runs")
     # 4. targeted search when something broke around ValidURI: the regex
@@ -525,11 +545,23 @@ def _main(tier):
                      "input": inputs_of(line), "implementation_line": line, "model_says": model, "decoded": describe(line),
                      "correspondence": "c19gen vs c19drive"}, tag="tie-" + k, no_input=True)
         found_areas.add(AREA_OF_KIND[k])
+    model_cex = {}
+    if g and "ids" in broken and "ids" not in found_areas:
+        # model-level counterexamples for GlobalID at the ends of the oracle's range
+        qf = os.path.join(common.build_dir("c19", "tmp"), "gquery.txt")
+        with open(qf, "w") as f:
+            f.write("".join("g %x\n" % x for x in (0, 1, MAXID - 2, MAXID - 1)))
+        mism, _, _, _ = run_runner(g, qf)
+        for line, model in mism:
+            r_, val = int(line.split()[1], 16), int(model, 16)
+            if not (1 <= val <= MAXID):
+                model_cex["GlobalID with secureInt63n returning %d" % r_] = val
     for area, reasons in sorted(broken.items()):
-        if area in found_areas or (area == "all" and found_areas):
+        if crashed or area in found_areas or (area == "all" and found_areas):
             continue
         v.violation({"property": PID, "what": "no longer shown: " + "; ".join(reasons),
                      "obligation": reasons, "area": area,
+                     "model_level_counterexample_not_forceable_on_the_real_code": model_cex if area == "ids" else {},
                      "searched": {"sweep_lines_vs_rule": lines_ref, "targeted_candidates": len(targeted),
                                   "exhaustive_strings_up_to": summary.get("maxlen")},
                      "coq_error": r["failed"][:1500]}, tag="obligation-" + area, no_input=True)
